@@ -5,8 +5,7 @@ C17 — the fragment `W` on which token preservation and idempotence are PROVED
   plain words · arbitrary blanks / tabs / newlines / other Unicode white space (no CR) ·
   nested blocks written `… {⏎ … ⏎}` — an opening brace is the last word of its line (or the
   very first word of the file), a closing brace is alone on its line ·
-  comments `# …` (on their own line or after a word; any text without backtick or backslash,
-  no trailing blanks) — not directly after `{` / `}` on the same line, not directly before a `{`.
+  comments `# …` (on their own line or after a word; any text without backslash, no trailing blanks) — not directly after `{` / `}` on the same line, not directly before a `{`.
 
 Everything else (quotes, backquotes, heredocs, escapes, `<`, `#` inside words, braces glued to
 words, one-line blocks, CR, BOM …) is excluded; most of it is excluded because the property is
@@ -29,9 +28,10 @@ def plainCh (c : Rune) : Bool :=
 /-- white space other than CR (which the lexer ignores instead of ending the token) -/
 def wsCh (c : Rune) : Bool := isSpace c && c != rCR
 
-/-- a character of a comment's text: anything but newline, backtick (toggles the formatter's
-    `withinBackquote`) and backslash (makes the lexer continue the line) -/
-def cmtCh (c : Rune) : Bool := c != rNL && c != rBQ && c != rBS
+/-- a character of a comment's text: anything but the newline and the backslash (which makes
+    the LEXER treat the comment's newline as a line continuation; a backtick is harmless since
+    the formatter repair) -/
+def cmtCh (c : Rune) : Bool := c != rNL && c != rBS
 
 /-- last element of `d :: l` -/
 def lastOf (d : Rune) : List Rune → Rune
